@@ -150,6 +150,9 @@ func runStandard(t *testing.T, p *Prop, sc *world.Scenario, out *Outcome) {
 	if p.Check != nil {
 		p.Check(c)
 	}
+	for range w.Panics {
+		out.probe("panic-on-request-goroutine")
+	}
 	out.Steps = w.S.StepNo()
 	out.SimMs = w.S.SimTime().Milliseconds()
 	out.Hash = w.S.Hash()
